@@ -12,8 +12,9 @@ Conventions.
 * The variable-size data file is modelled at byte level (`VarFile`) with its size file an
   `AOF (offset × size)`; an element is identified with its serialisation and `el bytes` is the
   number of bytes `T::read` consumes from a stream starting with `bytes` (`none` = read error).
-* `set_len` in `flush` is modelled by `List.take` (truncation only; the code would zero-extend
-  a file when asked to rewind beyond its length – outside the usage protocol).
+* `set_len` in `flush` of a fixed-size file is modelled by `List.take` (truncation only; the code
+  would zero-extend a file when asked to rewind beyond its length – outside the usage protocol;
+  for the byte-level variable-size data file the zero-extension is modelled).
 * u64 subtractions that would wrap (`1 + pos0 - shift`, `flatfile_pos - shift`) produce a
   position that reads as `None` in the code; with `Nat` subtraction they produce 0, which also
   reads as `None` here. -/
@@ -195,7 +196,10 @@ def flush (v : VarFile) : VarFile :=
     if v.bak > 0 then
       if v.bsp = 0 then []
       else match sf.read (v.bsp - 1) with
-        | some (o, s) => v.disk.take (o + s)
+        | some (o, s) =>
+          -- `set_len`: truncates, or zero-extends when the (possibly stale) size entry points
+          -- beyond the end of the file
+          v.disk.take (o + s) ++ List.replicate (o + s - v.disk.length) 0
         | none => v.disk   -- io error in the code; not reached under the protocol
     else v.disk
   let d' := d ++ v.buffer
